@@ -1,6 +1,92 @@
-(* C07 (store part) — the property theorems, and nothing else. *)
-From VF Require Import Store.Model Store.Spec Store.Proofs.
+(* C07 (mutable proto store: "statistics are never lost") — the property
+   theorems, and nothing else.  [run init evs] is the model of the repaired
+   code after an arbitrary interleaving [evs] of critical sections of
+   concurrent Get calls (first section, read done, each write done ok/failed,
+   last section) and Release calls; no bound on digests, handles or calls. *)
+From Coq Require Import String.
+From VF Require Import Store.Model Store.Spec Store.Invariant Store.Proofs Store.Legacy.
+Open Scope N_scope.
 
-Theorem init_is_quiescent : quiescent init.
-Proof. exact init_quiescent. Qed.
-Print Assumptions init_is_quiescent.
+(* Whenever no handle is in use, the write queue is empty and no write is in
+   flight, the backing store holds, for every digest, the message of the
+   latest dirty Release (which contains every update made through the
+   handle it was released from). *)
+Theorem no_lost_update : forall evs,
+  let s := run init evs in
+  quiescent s -> forall d, s_backing s d = s_latest s d.
+Proof. exact no_lost_update_l. Qed.
+Print Assumptions no_lost_update.
+
+(* Handles reachable from the map, the write queue, writes in flight or
+   callers: at most one per digest. *)
+Theorem one_handle_per_digest : forall evs h1 h2,
+  let s := run init evs in
+  reachable s h1 -> reachable s h2 ->
+  h_dig (s_handles s h1) = h_dig (s_handles s h2) -> h1 = h2.
+Proof. exact one_handle_per_digest_l. Qed.
+Print Assumptions one_handle_per_digest.
+
+(* A failed write-back leaves the handle registered and dirty, and queued
+   again unless a caller still holds it (whose Release then queues it). *)
+Theorem failed_write_requeued : forall evs g d m gt w rest,
+  let s := run init evs in
+  s_gets s g = Some gt -> take_write d m (g_writes gt) = Some (w, rest) ->
+  let s' := fst (step s (EPut g d m false)) in
+  in_map s' (w_h w) /\ h_wv (s_handles s' (w_h w)) < h_cv (s_handles s' (w_h w)) /\
+  (In (w_h w) (s_queue s') \/ (0 < h_use (s_handles s' (w_h w)))%nat).
+Proof. exact failed_write_requeued_l. Qed.
+Print Assumptions failed_write_requeued.
+
+(* The handle Get returns is the one registered for the digest, and its
+   message is the latest released one -- unless the backing store already
+   holds the latest message (the read of this Get was overtaken by a
+   completed write-back: known finding "stale read", see below).  This is
+   the monitor's "stale-base" check. *)
+Theorem returned_handle_current : forall evs g f msg,
+  let s := run init evs in
+  snd (step s (EEnd g)) = OEnd (Some (f, msg)) ->
+  let s' := fst (step s (EEnd g)) in
+  exists hid, s_refs s' g = Some hid /\ in_map s' hid /\
+    (msg = s_latest s' (h_dig (s_handles s' hid)) \/
+     s_backing s' (h_dig (s_handles s' hid)) = s_latest s' (h_dig (s_handles s' hid))).
+Proof. exact returned_handle_current_l. Qed.
+Print Assumptions returned_handle_current.
+
+(* The invariant all of the above follow from. *)
+Theorem invariant_holds : forall evs, Inv (run init evs).
+Proof. exact (fun evs => run_inv evs init init_inv). Qed.
+Print Assumptions invariant_holds.
+
+(* ---- what is false, with witnesses (replayed on the code: corpus/C07) -------------- *)
+
+(* The code as found (Release: currentVersion = writtenVersion + 1) loses an update. *)
+Theorem no_lost_update_refuted_as_found : exists evs, reports kind_lost as_found evs = true.
+Proof. exists evs_version_alias. exact as_found_loses_update. Qed.
+Print Assumptions no_lost_update_refuted_as_found.
+
+(* With only that repaired, two writes of one handle can be in flight:
+   a second handle object appears for a digest. *)
+Theorem one_handle_refuted_bump_only : exists evs, reports kind_two bump_only evs = true.
+Proof. exists evs_concurrent_writes_two. exact bump_only_two_handles. Qed.
+Print Assumptions one_handle_refuted_bump_only.
+
+(* Full statement that remains false of the repaired code (known finding
+   C07:store-stale-read): "the handle Get returns always carries the latest
+   released message".  The read of a Get that found no handle can be
+   overtaken by another Get's handle being updated, written back and
+   dropped; the first Get then registers its stale copy. *)
+Theorem returned_handle_latest_refuted : exists evs, reports kind_stale_read repaired evs = true.
+Proof. exists evs_stale_read. exact repaired_stale_read. Qed.
+Print Assumptions returned_handle_latest_refuted.
+
+(* ---- non-vacuity ---------------------------------------------------------------------- *)
+
+(* a run that reaches a quiescent state with a non-empty backing store:
+   Get(7); read; end; release dirty with token 5; Get(8) dequeues and
+   writes the handle; ...; everything released *)
+Example quiescent_nontrivial :
+  let evs := [EGet 7; ERead 0 true; EEnd 0; ERel 0 true 5; EGet 8; ERead 1 true;
+              EPut 1 7 [5] true; EEnd 1; ERel 1 false 0] in
+  let s := run init evs in
+  s_queue s = [] /\ s_map s 7 = None /\ s_map s 8 = None /\ s_backing s 7 = [5] /\ s_latest s 7 = [5].
+Proof. vm_compute. repeat split; reflexivity. Qed.
